@@ -1128,6 +1128,16 @@ mod pipeline {
         }
     }
 
+    impl Drop for ReadPipelineAdapter {
+        // Close the stream before the commands are waited for: with
+        // unread output pending the last command, and in turn the ones
+        // feeding it, would block forever writing to a pipe no one reads.
+        fn drop(&mut self) {
+            let last = self.0.last_mut().unwrap();
+            last.stdout.take();
+        }
+    }
+
     #[derive(Debug)]
     struct WritePipelineAdapter(Vec<Popen>);
 
